@@ -109,6 +109,21 @@ func pairwiseRows(c *core.Ctx) []row {
 		}
 		return g
 	}
+	// deterministic choice (map iteration order must not influence the rows)
+	firstUncovered := func() pr {
+		for f1 := 0; f1 < len(sizes); f1++ {
+			for f2 := f1 + 1; f2 < len(sizes); f2++ {
+				for v1 := 0; v1 < sizes[f1]; v1++ {
+					for v2 := 0; v2 < sizes[f2]; v2++ {
+						if unc[pr{f1, v1, f2, v2}] {
+							return pr{f1, v1, f2, v2}
+						}
+					}
+				}
+			}
+		}
+		return pr{}
+	}
 	var tuples [][]int
 	add := func(t []int) {
 		tuples = append(tuples, t)
@@ -130,10 +145,8 @@ func pairwiseRows(c *core.Ctx) []row {
 				t[f] = rng.Intn(sizes[f])
 			}
 			if k == 0 { // seed the candidate with an uncovered pair so that progress is guaranteed
-				for p := range unc {
-					t[p.f1], t[p.f2] = p.v1, p.v2
-					break
-				}
+				p := firstUncovered()
+				t[p.f1], t[p.f2] = p.v1, p.v2
 			}
 			if g := gain(t); g > bg {
 				bg, best = g, t
@@ -364,6 +377,7 @@ type stats struct {
 }
 
 func replay(c *core.Ctx, env *hsreal.Env, scs []*scenario, st *stats) {
+	defer hsreal.QuietStdout()()
 	core.ParallelFor(len(scs), 16, func(i int) {
 		sc := scs[i]
 		r := runReal(env, sc)
